@@ -132,7 +132,7 @@ pub fn c07_sparse_n3_m6() {
 }
 
 // Large non-negative weights (0..2^61): path sums fit in isize, distances beyond isize::MAX / 4 occur.
-// @verif prop=C07 tier=thorough fl=f2 role=sparse/large-weights t=3600 mem=24
+// @verif prop=C07 tier=exp fl=f2 role=sparse/large-weights t=3600 mem=24
 #[cfg_attr(kani, kani::proof)]
 #[cfg_attr(kani, kani::unwind(6))]
 pub fn c07_sparse_large_n3_m4() {
@@ -148,7 +148,7 @@ pub fn c07_repr_n3_m2_w2() {
 }
 
 // Through AdjacencyListWeighted<isize> (map model), <= 4 arcs on 3 vertices.
-// @verif prop=C07 tier=thorough fl=f2 feat=map4 role=repr/small-weights t=3600 mem=30
+// @verif prop=C07 tier=exp fl=f2 feat=map4 role=repr/small-weights t=3600 mem=30
 #[cfg_attr(kani, kani::proof)]
 #[cfg_attr(kani, kani::unwind(10))]
 pub fn c07_repr_n3_m4() {
